@@ -1,0 +1,16 @@
+//go:build verif
+// +build verif
+
+package eth
+
+import (
+	"github.com/polynetwork/poly/native"
+	scom "github.com/polynetwork/poly/native/service/cross_chain_manager/common"
+	cmanager "github.com/polynetwork/poly/native/service/governance/side_chain_manager"
+)
+
+// VerifVerifyFromEthTx exposes the unexported deposit-proof check to the verification harness (build tag verif).
+func VerifVerifyFromEthTx(service *native.NativeService, proof, extra []byte, fromChainID uint64, height uint32,
+	sideChain *cmanager.SideChain) (*scom.MakeTxParam, error) {
+	return verifyFromEthTx(service, proof, extra, fromChainID, height, sideChain)
+}
